@@ -511,6 +511,7 @@ func (ft *funcTrans) instr(in ssa.Instruction) {
 		ft.sendReqs(ft.termOf(x.X), ft.termOf(x.Chan), x.Pos())
 		ft.asyncPoint()
 		ft.recordSent(ft.termOf(x.X), "true")
+		ft.countSendAttempt()
 	case *ssa.Select:
 		for _, stt := range x.States {
 			if stt.Dir == types.SendOnly && stt.Send != nil {
@@ -528,6 +529,12 @@ func (ft *funcTrans) instr(in ssa.Instruction) {
 			lo = 0
 		}
 		ft.assume(fmt.Sprintf("(and %s %s)", w.ile(w.ilit(int64(lo)), tup[0].T.S), w.ilt(tup[0].T.S, w.ilit(int64(n)))))
+		for _, stt := range x.States {
+			if stt.Dir == types.SendOnly {
+				ft.countSendAttempt() // a select with a send case is one attempt to send, whichever case is taken
+				break
+			}
+		}
 		for k, stt := range x.States {
 			chosen := fmt.Sprintf("(= %s %s)", tup[0].T.S, w.ilit(int64(k)))
 			if stt.Dir == types.SendOnly && stt.Send != nil {
@@ -1127,4 +1134,19 @@ func (ft *funcTrans) recordSent(v Term, cond string) {
 	}
 	w.addFact(fmt.Sprintf("(=> %s (= %s (store %s %s true)))", cond, nw, old, v.S))
 	w.addFact(fmt.Sprintf("(=> (not %s) (= %s %s))", cond, nw, old))
+}
+
+// countSendAttempt: when the spec declares the ghost counter `sendAttempts Int`, every send
+// statement and every select with a send case increments it.
+func (ft *funcTrans) countSendAttempt() {
+	w := ft.w
+	srt, ok := w.P.Spec.Ghosts["sendAttempts"]
+	if !ok || w.BV {
+		return
+	}
+	h := "G_ghost.sendAttempts"
+	w.heapSorts[h] = srt
+	old := w.heapSym(ft.curSt, h)
+	nw := ft.newHeapVersion(ft.curSt, h)
+	w.addFact(fmt.Sprintf("(= %s (+ %s 1))", nw, old))
 }
